@@ -2,7 +2,7 @@
    Compiled at check time with `-Q <build dir> Gen12`; a proof that stops going through means the
    current source no longer satisfies the property (broken obligation).  Stdlib Reals only. *)
 From Coq Require Import Reals Lra String List Psatz Nsatz Bool.
-From QV.lib Require Import C12_RealLib.
+From QV.lib Require Import C12_RealLib C12_Trig.
 From Gen12 Require Import Gen_Chi.
 Import ListNotations.
 Open Scope R_scope.
@@ -12,17 +12,8 @@ Ltac eval_tables :=
   cbv beta iota zeta delta [sum_over fold_right all_labels basis polar_to_cartesian cartesian_to_polar
        merge_coefs env3 String.eqb Ascii.eqb Bool.eqb andb].
 
-(* push angle differences through cos/sin, so that cos(m·phi), cos(m·phi_nm) become ring atoms *)
-Ltac trig_step :=
-  match goal with
-  | |- context[cos (?k * (?a - ?b))] => replace (k * (a - b)) with (k * a - k * b) by ring
-  | |- context[sin (?k * (?a - ?b))] => replace (k * (a - b)) with (k * a - k * b) by ring
-  | |- context[cos (?a - ?b)] => rewrite (cos_minus a b)
-  | |- context[sin (?a - ?b)] => rewrite (sin_minus a b)
-  | |- context[cos (1 * ?a)] => rewrite (Rmult_1_l a)
-  | |- context[sin (1 * ?a)] => rewrite (Rmult_1_l a)
-  end.
-Ltac trig_norm := repeat trig_step.
+(* trig_norm (lib/C12_Trig.v) pushes angle differences through cos/sin, so that cos(m·phi),
+   cos(m·phi_nm) become ring atoms *)
 
 Ltac split_in H := cbv [In all_labels polar_symbols] in H; repeat (destruct H as [<- | H]); [.. | contradiction].
 
@@ -129,4 +120,14 @@ Proof.
   intros H. unfold merge_coefs. rewrite chi_of_cartesian by exact H.
   rewrite (polar_eq_cartesian init) by exact H. rewrite <- sum_over_plus.
   apply sum_over_ext. intros l _. ring.
+Qed.
+
+(* the principal domain is inhabited: all magnitudes 1, all angles 0 *)
+Lemma polar_domain_nonvacuous : exists c : env, polar_domain c.
+Proof.
+  exists (fun s => if String.prefix "phi" s then 0 else 1).
+  intros C p m Hin. pose proof PI_RGT_0 as Hpi.
+  cbv [ang_triples In] in Hin.
+  repeat (destruct Hin as [Hin | Hin]; [injection Hin as <- <- <-; cbn [String.prefix]; cbv [Ascii.ascii_dec Ascii.ascii_rec Ascii.ascii_rect Bool.bool_dec bool_rec bool_rect sumbool_rec sumbool_rect eq_ind_r eq_ind eq_sym f_equal]; split; lra |]).
+  contradiction.
 Qed.
